@@ -107,12 +107,22 @@ void runcrypt::release(u8_t *iv, Aesmode **mode)
 /*
 over:关闭文件并释放空间
 */
-void runcrypt::over()
+bool runcrypt::over()
 {
+  bool written = true;
   if (fin != NULL)
     fclose(fin);
   if (out != NULL)
-    fclose(out);
+  {
+    // a write error (disk full ...) may only surface when the stream is flushed
+    if (ferror(out))
+      written = false;
+    if (fclose(out) != 0)
+      written = false;
+  }
+  if (!written)
+    fprintf(stderr, "Error: could not write the output file\n");
+  return written;
 }
 /*
 verify:验证密钥和文件
@@ -196,9 +206,9 @@ bool runcrypt::execute_encrypt(size_t fsize, u8_t *r_buf)
   resultprint->printtask("Releasing allocated memory");
   release(iv, mode);
   resultprint->printenc(); // 打印结果
-  over();                  // 关闭文件
+  bool written = over();   // 关闭文件
   TIMER_END(Total_Time);   // 打印时间
-  return true;
+  return written;
 }
 /*
 execute_decrypt:解密执行过程
@@ -233,9 +243,9 @@ bool runcrypt::execute_decrypt(size_t fsize)
     release(iv, mode);
   }
   resultprint->printresd(res); // 打印结果
-  over();                      // 关闭文件
+  bool written = over();       // 关闭文件
   TIMER_END(Total_Time);       // 打印时间
-  return res == 0;
+  return res == 0 && written;
 }
 /*
 execute_verify:验证执行过程
